@@ -985,6 +985,10 @@ func (self *Node) Move(dst, src int) error {
 				break
 			}
 		}
+		// a position beyond the live children: nothing to move (as on an array without unset cells)
+		if di >= 0 || si >= 0 {
+			return nil
+		}
 	}
 
 	s.MoveOne(src, dst)
